@@ -1,23 +1,27 @@
 (* C02  ZSON text round trip is the identity; JSON is a subset.
    Statements only; each is closed by [exact] of a lemma from Proofs/.
-   Modelled: string/name escaping and the lexer's string scanner (code
-   points); the decorator logic of Formatter and Analyzer at parse-tree level
-   for the fragment primitive | record | array | named | null.  The text
-   parser, primitive token spelling, unions/sets/maps/enums/errors/type values
-   and the JSON reader are exercised by the oracles of the harness only. *)
-From ZV Require Import Base.Prelude Model.Escape Model.Zson Proofs.EscapeProofs Proofs.ZsonProofs.
+   Modelled (Model/Escape.v, Model/Zson.v, vocabulary in Model/ZsonSpec.v):
+   string/name escaping and the lexer's string scanner over code points; the
+   decorator logic of zson.Formatter and zson.Analyzer at parse-tree level for
+   the fragment  primitive | record | array | named type | null, with the
+   typedef state (per value / per stream, persist).  The text parser,
+   primitive token spelling, unions/sets/maps/enums/errors/type values,
+   pretty-printing and the JSON reader are exercised by the oracles of the
+   harness only. *)
+From ZV Require Import Base.Prelude Model.Escape Model.Zson Model.ZsonSpec
+                       Proofs.EscapeProofs Proofs.ZsonProofs.
 Local Open Scope N_scope.
 
-(* The lexer's scanString/parseStringBytes inverts QuotedString on every
-   string, whatever follows the closing quote. *)
+(* The lexer's scanString/scanToCloseQuote/parseStringBytes inverts
+   QuotedString on every string, whatever follows the closing quote. *)
 Theorem C02_escape_roundtrip :
   forall s rest, unquote (quoted s ++ rest) = Some (s, rest).
 Proof. exact unquote_quoted. Qed.
 Print Assumptions C02_escape_roundtrip.
 
-(* Field names, enum symbols: QuotedName then matchSymbol is the identity
-   (for any letter predicate that does not contain the quote character),
-   provided the next character cannot extend an identifier. *)
+(* Field names, enum symbols: QuotedName then matchSymbol is the identity (for
+   any letter predicate that does not contain the quote character), provided
+   the next character cannot extend an identifier. *)
 Theorem C02_name_roundtrip :
   forall (letter : N -> bool), letter 34 = false ->
   forall s rest, boundary letter rest ->
@@ -32,51 +36,72 @@ Theorem C02_name_quoting_total :
 Proof. exact name_quoting_total. Qed.
 Print Assumptions C02_name_quoting_total.
 
-(* Decorator sufficiency: a value of an anonymous type written by formatValue
-   with the decorator rule of Formatter.decorate (under any typedef state,
-   persist setting and implied-parent flag consistent with the type) is
-   analysed, without any enclosing type, to exactly its type and value: the
-   decorator is elided only where the analyzer re-infers the same type. *)
-Theorem C02_decorator_sufficient_partial :
+(* Decorator sufficiency.  A value written by formatValue where no enclosing
+   type is known (any typedef state related to the reader's by [Inv], any
+   persist setting) is analysed, without any enclosing type, to exactly its
+   type and value, and the two typedef states stay related: a decorator is
+   elided only where the analyzer re-infers the same type, a name is used
+   only where the reader has it bound to that type. *)
+Theorem C02_decorator_sufficient :
   forall P t v st a pi,
-    anon t -> wf t v -> implied_ok pi t ->
-    exists z, fv P st t v false pi true = (z, st) /\ conv_val a z None = Some (t, v, a).
-Proof. exact fv_roundtrip_anon. Qed.
-Print Assumptions C02_decorator_sufficient_partial.
+    wf t v -> good t -> implied_ok pi t -> Inv P st a ->
+    exists z nl st' a',
+      fv P st t v false pi true = (z, nl, st') /\
+      conv_val a z None = Some (t, v, a') /\ Inv P st' a' /\ frame (names_of t) st st'.
+Proof. exact decorator_sufficient. Qed.
+Print Assumptions C02_decorator_sufficient.
 
-(* Round trip of a value at the top of a text (FormatValue / ParseValue),
-   anonymous fragment, every value except the top-level empty array. *)
-Theorem C02_zson_roundtrip_partial :
+(* Where the enclosing type is known (inside a value of an already defined
+   named type) nothing is decorated and the analyzer reads the value by the
+   type of its context. *)
+Theorem C02_known_type_sufficient :
+  forall P t v st c,
+    wf t v -> under c = under t ->
+    exists z nl, fv P st t v true false true = (z, nl, st) /\
+                 forall a, conv_val a z (Some c) = Some (c, v, a).
+Proof. exact known_type_sufficient. Qed.
+Print Assumptions C02_known_type_sufficient.
+
+(* Formatter.formatType is read back by Analyzer.convertType, embedded
+   typedefs and references to earlier typedefs included. *)
+Theorem C02_type_roundtrip :
+  forall P t st a,
+    good t -> Inv P st a ->
+    exists y st' a', fmt_type P st t = (y, st') /\ conv_type a y = Some (t, a') /\
+                     Inv P st' a' /\ frame (names_of t) st st'.
+Proof. exact format_type_roundtrip. Qed.
+Print Assumptions C02_type_roundtrip.
+
+(* FormatValue / ParseValue: every well-formed value of the fragment, named
+   types, first-use typedefs (=name), later references (name), redefined names
+   and empty containers included. *)
+Theorem C02_zson_roundtrip :
   forall P t v st a,
-    anon t -> wf t v -> top_ok t v ->
-    exists z, fmt_top P st t v = (z, st) /\ conv_val a z None = Some (t, v, a).
-Proof. exact top_roundtrip_anon. Qed.
-Print Assumptions C02_zson_roundtrip_partial.
+    wf t v -> good t -> Inv P st a ->
+    exists z st' a', fmt_top P st t v = (z, st') /\
+                     conv_val a z None = Some (t, v, a') /\ Inv P st' a'.
+Proof. exact top_roundtrip. Qed.
+Print Assumptions C02_zson_roundtrip.
 
-(* Sequences: any persist setting, Format or FormatRecord, one reader. *)
-Theorem C02_zson_stream_roundtrip_partial :
-  forall P reset l st a,
-    Forall (fun tv => anon (fst tv) /\ wf (fst tv) (snd tv) /\ top_ok (fst tv) (snd tv)) l ->
-    conv_stream a (fmt_stream P reset st l) = map Some l.
-Proof. exact stream_roundtrip_anon. Qed.
-Print Assumptions C02_zson_stream_roundtrip_partial.
+(* Sequences written by one formatter (Format: typedefs persist; FormatRecord:
+   typedefs per value, persisting only for names matching [P]) and read by one
+   reader. *)
+Theorem C02_zson_stream_roundtrip :
+  forall P reset l,
+    Forall (fun tv => wf (fst tv) (snd tv) /\ good (fst tv)) l ->
+    conv_stream [] (fmt_stream P reset fstate0 l) = map Some l.
+Proof. exact stream_roundtrip0. Qed.
+Print Assumptions C02_zson_stream_roundtrip.
 
-(* The faithful model violates the full statement in three places; each is a
-   defect of the code reported by the oracle with the same input. *)
-Theorem C02_toplevel_empty_array_refuted :
-  exists t v, anon t /\ wf t v /\
-    conv_val [] (fst (fmt_top PNone fstate0 t v)) None <> Some (t, v, []).
-Proof. exact toplevel_empty_array_refuted. Qed.
-Print Assumptions C02_toplevel_empty_array_refuted.
+(* The two shapes excluded by [good] are not artefacts: the faithful model,
+   like the code, fails on them (open findings F-C02-8 and F-C02-7). *)
+Theorem C02_named_of_named_inner_named_refuted :
+  exists t v, wf t v /\ conv_val [] (fst (fmt_top PNone fstate0 t v)) None = None.
+Proof. exact named_of_named_inner_named_refuted. Qed.
+Print Assumptions C02_named_of_named_inner_named_refuted.
 
-Theorem C02_redefined_name_refuted :
+Theorem C02_name_nested_in_itself_refuted :
   exists l, Forall (fun tv => wf (fst tv) (snd tv)) l /\
     conv_stream [] (fmt_stream PNone false fstate0 l) <> map Some l.
-Proof. exact redefined_name_refuted. Qed.
-Print Assumptions C02_redefined_name_refuted.
-
-Theorem C02_named_of_named_refuted :
-  exists t v, wf t v /\
-    option_map (fun r => fst (fst r)) (conv_val [] (fst (fmt_top PNone fstate0 t v)) None) <> Some t.
-Proof. exact named_of_named_refuted. Qed.
-Print Assumptions C02_named_of_named_refuted.
+Proof. exact name_nested_in_itself_refuted. Qed.
+Print Assumptions C02_name_nested_in_itself_refuted.
